@@ -21,6 +21,13 @@ def neutral_line(rng, sy):
         return rng.choice(["", " ", "\t", "   ", " \t ", " ", "　"])
     for _ in range(20):
         body = directed_comment_body(rng, sy) if rng.random() < 0.45 else rand_text(rng, sy, rng.randint(0, 6), hostile=True)
+        r = rng.random()
+        if r < 0.015:
+            # a very long comment (inline source maps, licence banners on one line): still a comment
+            body = (body + " data:application/json;base64," + "QUJD" * rng.choice([700, 2100, 2048, 4100, 20000]))
+        elif r < 0.04:
+            # endings that some languages treat as a line continuation
+            body = body + rng.choice(["\\", " \\", "C:\\out\\", " ^", " _", " &", ",", " ..."])
         if "sloc-guard:ignore" in body:
             continue
         line = rng.choice(["", "", "  ", "\t"]) + rng.choice(sy.single) + rng.choice(["", " "]) + body
